@@ -396,6 +396,7 @@ def cache_rule(prog: Program, rep: Report) -> None:
     I = Interp(prog, stubs={f"{REMOTES}:SwitcherBreezeRemote": remote_stub})
     st = I.new_state()
     db = st.alloc(HeapObj("dict", None, {}, [], False, "self._remotes_db", False))
+    ci.require_attrs(["_remotes_db", "_remotes_db_fpath"], "symbolic remote manager")
     selfv = st.alloc(HeapObj("obj", ci, {"_remotes_db": db, "_remotes_db_fpath": ("sym", "path", "str")}, [], False, "self", False))
     outs = I.run(fi, {fi.params[0]: selfv, fi.params[1]: rid}, st)
     rets = [o for o in outs if o.kind == "return"]
